@@ -37,13 +37,23 @@ class Chooser:
                   entries fall back to 0 ("first runnable"), so shrunk plans stay executable.
     """
 
-    def __init__(self, rng=None, recorded=None, stay=0.5):
+    def __init__(self, rng=None, recorded=None, stay=0.5, pct_depth=0, horizon=60):
         self.rng = rng
         self.recorded = recorded
         self.stay = stay
         self.taken: list[int] = []
+        # PCT mode (Burckhardt et al.): every task gets a random priority, the runnable task
+        # with the highest priority runs, and at `pct_depth` seeded decision indices the
+        # running task's priority drops below all others.  Finds orderings in which one task
+        # stalls at a particular point while the others run to completion.
+        self.pct_depth = pct_depth
+        self.prio: dict[int, float] = {}
+        self.decisions = 0
+        self.change_at = set()
+        if pct_depth and rng is not None:
+            self.change_at = {rng.randrange(1, horizon) for _ in range(pct_depth)}
 
-    def choose(self, n: int, cur_idx):
+    def choose(self, n: int, cur_idx, tids=None):
         if n == 1:
             return 0
         if self.recorded is not None:
@@ -51,6 +61,14 @@ class Chooser:
             c = self.recorded[i] if i < len(self.recorded) else 0
             if not isinstance(c, int) or c < 0 or c >= n:
                 c = 0
+        elif self.pct_depth and tids is not None:
+            self.decisions += 1
+            for t in tids:
+                if t not in self.prio:
+                    self.prio[t] = 1.0 + self.rng.random()
+            if self.decisions in self.change_at and cur_idx is not None:
+                self.prio[tids[cur_idx]] = min(self.prio.values()) - 1.0
+            c = max(range(n), key=lambda i: self.prio[tids[i]])
         else:
             if cur_idx is not None and self.rng.random() < self.stay:
                 c = cur_idx
@@ -190,7 +208,7 @@ class Scheduler:
         cur_idx = None
         if cur is not None and cur.state == "runnable":
             cur_idx = rs.index(cur)
-        return rs[self.chooser.choose(len(rs), cur_idx)]
+        return rs[self.chooser.choose(len(rs), cur_idx, [t.tid for t in rs])]
 
     def _handoff(self, cur: Task | None, nxt: Task | None):
         if nxt is cur and cur is not None:
